@@ -529,7 +529,7 @@ def gen_cases(ctx):
     for _ in range(8 * k):
         h, w_ = pick(SHAPES)
         cases.append({"method": "rise", "c09": {"kind": "img", "shape": [h, w_, pick([1, 3])], "grid": [int(rng.integers(1, 6)), int(rng.integers(1, 6))],
-                                                 "nb": int(rng.integers(2, 13)), "bs": pick([None, 3, 5]), "N": 1, "p": 0.5, "v": 0.0,
+                                                 "nb": int(rng.integers(2, 13)), "bs": pick([None, 3, 5]), "N": int(pick([1, 2, 3])), "p": 0.5, "v": 0.0,
                                                  "case_seed": seed()}})
     if thorough:
         for _ in range(12):
